@@ -32,6 +32,10 @@ func run(c *vf.Ctx) {
 	c.Assume("value text, key names and order are compared; the JSON type (quoted or not) of a scalar re-read from text is C06's subject and is not asserted")
 	c.Assume("a step from a non-nesting into a nesting format auto-unflattens keys containing the flatten separator (documented): such keys are outside the domain of that path")
 	c.Assume("records are non-empty and have distinct keys; values are valid UTF-8")
+	c.Assume("vacuity guard of the flag corpus: --ijson/--ijsonl select the same reader by design; --odcf/--orecutils coincide on single-line scalar values, so they are not told apart behind line-oriented readers; --igen ignores its input and is left out of the guard")
+	c.Assume("when both a spelling and its expansion fail (non-zero exit) only the failure is compared, not the message: which data error surfaces first is timing-dependent (C17's subject)")
+	c.Assume("flags that select neither a format nor a separator (comments, compression, colours, profiling, most of the miscellaneous section; listed in flag_spellings_without_own_case) are walked and counted but have no law of their own here; their alternate names are still compared with the primary name")
+	c.Assume("-i/-o/--io with a name outside the documented format-name list (jsonl, md, tsvlite, asv, usv, ...): a loud rejection is counted, not asserted; an accepted name must be equivalent")
 
 	only := os.Getenv("C02_ONLY") // debugging aid: run one part
 	var nd int64
@@ -45,10 +49,10 @@ func run(c *vf.Ctx) {
 	}
 	if only == "" || only == "nest" {
 		t0 := time.Now()
-		res2 := c.RunPool(vf.PoolSpec{Worker: "nest", Shards: 64})
+		res2 := c.RunPool(vf.PoolSpec{Worker: "nest", Shards: 64, Env: []string{"GOMAXPROCS=2", "GOGC=400"}})
 		c.Extra["nest_cli_distinct_documents_in_guard"] = vf.SetSize(res2, "docs")
 		nd += int64(vf.SetSize(res2, "docs"))
-		nd += c.Counters["lib-docs-in-guard"]
+		nd += c.Counters["lib-class:docs-in-guard"]
 		wall["nest"] = time.Since(t0).Seconds()
 	}
 	if only == "" || only == "flags" {
